@@ -29,6 +29,22 @@ Laws evaluated on the implementation's own output (theorems of Props/C11.v with 
     under their target names produces (run_movep): the failing file untouched at its source, nothing under its target
     name, every other selected file either moved or untouched, no other path changed.  Which of the convertible
     files were moved before move() raised is not determined (parallel workers) and not compared.
+  * copy_is_independent: histories in which files are copied (move(copy=True), with and without conversion) and then
+    one of the two names is WRITTEN AGAIN in place -- fileset[s:e] = data under the period the file is found under, and
+    write(data, path); the harness' writers and typhon's handlers open the path for writing (same inode), nothing is
+    renamed -- and the other name is read (8 directed histories: pickle / JSON / CSV, plain and .gz / .bz2 / .xz, target as
+    fileset and as path, thread and process workers, original first / copy first; appended to 80 % of the random histories
+    that copy).  The model's disk is a map path -> content, so the step semantics prescribe that the other name keeps
+    its content.  In addition every per-step listing reports paths of the tree that are one and the same inode
+    (st_nlink > 1): signature paths-share-inode (an additional law; the overwrite histories do not depend on it).
+  * read_applies_post_reader_to_own_entry (+ get_ / collect_ / convert_ forms): half of the post_readers LOOK AT the
+    FileInfo they are handed (harness PostLabel, model t_label: payload + k + 1000 * checksum of file_info.path relative to
+    the tree, file_info.times, file_info.attr).  The model applies post_reader to the entry of the file itself -- for
+    read(FileInfo) the entry find() reports, for read("path") FileInfo(path) without times -- so a post_reader that is
+    handed anything else (the temporary decompressed file) returns another number: read-value / get-value /
+    collect-value / move-tree.  8 directed histories store the same payloads in plain and in .gz / .bz2 / .xz / .zip
+    filesets and read them through read(info), read("path"), fileset[t], fileset[s:e], collect, icollect, collect(files=)
+    and move(convert=..) into a second labelled fileset.
 User handlers come in flavours the model does not distinguish (cfg rflav / wflav): two plain functions, or bound methods
 of a user object with the signatures (.., **kwargs), (.., offset=0), (.., offset=0, **kwargs); default, per-call and
 collect arguments must reach all of them alike.
@@ -58,6 +74,8 @@ TRUSTED = [
     "Model/C02_template.v render/info (property C02) for the file names; Model/C12_compress.v fmt_of_name",
     "kcode (what a keyword dictionary means to a handler) is a Section variable; on the harness instance it reads the "
     "keyword `offset` of the test handlers",
+    "post_reader is a component of the fileset record (entry -> Data -> Data, arbitrary in the theorems); the harness instance "
+    "t_label / PostLabel computes one checksum twice (Coq hstr / t_lab, Python hstr / info_label)",
 ]
 DT_MAX = 315537897600000000
 EPOCH = dt.datetime.min
@@ -368,6 +386,129 @@ def decorate(rng, cases):
                 op["fail"] = {"how": rng.choice(["convert", "convert", "handler"]), "pick": rng.randrange(64)}
 
 
+def directed_cases3(rng, k0):
+    """(a) a copy is an independent file: files are copied WITHOUT conversion (move(copy=True)), then the original is
+    written again under its own name -- fileset[s:e] = data and write(data, path): the handlers open the path for
+    writing, the same inode is truncated -- and the copy is read; and the mirror image (the copy is overwritten, the
+    original read).  The model's disk is a map path -> content: the other name keeps its content (copy_is_independent).
+    (b) post_reader looks at the FileInfo it is handed (PostLabel): the same payloads in a plain and in compressed
+    filesets, read through read(info), read("path"), fileset[t], fileset[s:e], collect, icollect and move(convert=..)."""
+    cases = []
+    base = {"sat": False, "cov": None, "rargs": 0, "wargs": 0, "post": None, "compress": True, "decompress": True,
+            "worker": "thread", "csv_args": 0}
+    sel_all = {"start": None, "end": None, "white": None, "black": None}
+    # ---- (a): kind, compression suffix, target as fileset / as path, worker, which side is overwritten first, how
+    variants = [("pkl", "", "fs", "thread", "orig", "setitem"), ("json", ".gz", "path", "thread", "copy", "write"),
+                ("csv", "", "path", "thread", "orig", "write"), ("pkl", ".bz2", "fs", "process", "copy", "setitem"),
+                ("csv", ".gz", "fs", "thread", "orig", "setitem"), ("json", "", "path", "thread", "orig", "write"),
+                ("pkl", ".xz", "path", "thread", "copy", "write"), ("csv", "", "fs", "thread", "copy", "setitem")]
+    for kind, comp, tkind, worker, first, how in variants:
+        sfx = rng.choice(SUFFIX[kind]) + comp
+        sat = rng.random() < 0.4
+        f0 = dict(base, name="fs0", hkind=kind, worker=worker, sat=sat,
+                  path="d0/{year}/{month}/" + ("{sat}_" if sat else "") + "{day}T{hour}" + sfx)
+        tpath = "d1/" + ("{sat}/" if sat else "") + "{year}-{doy}_{hour}" + sfx
+        f1 = dict(base, name="fs1", hkind=kind, sat=sat, path=tpath)
+        day = rng.choice([dt.datetime(2017, 12, 31), dt.datetime(2020, 2, 28), dt.datetime(2019, 6, 30)])
+        v = rng.randrange(1, 50) * 10
+        ops = []
+        for j in range(3):
+            s_ = day + dt.timedelta(days=j, hours=6)
+            ops.append({"op": "write", "fs": 0, "s": us(s_), "e": us(s_), "v": v + j + 1, "slice": False,
+                        "fill": {"sat": SATS[j % 2]} if sat else None, "call_args": None})
+        if tkind == "fs":
+            filesets, tgt, ti = [f0, f1], {"kind": "fs", "fs": 1}, 1
+        else:
+            filesets, tgt, ti = [f0], {"kind": "path", "path": tpath}, 1     # the fileset move() returns joins the pool as 1
+        a, b = (0, ti) if first == "orig" else (ti, 0)
+        other = "write" if how == "setitem" else "setitem"
+        ops += [{"op": "move", "fs": 0, "copy": True, **sel_all, "target": tgt, "convert": None, "conv_none": rng.random() < 0.5},
+                {"op": "collect", "fs": ti, "slice": False, **sel_all, "call_args": None},
+                # one side is written again, in place; the other side is read
+                {"op": "overwrite", "fs": a, "pick": rng.randrange(3), "how": how, "v": v + 900, "after_copy": first},
+                {"op": "collect", "fs": b, "slice": False, **sel_all, "call_args": None},
+                {"op": "read", "fs": b, "pick": rng.randrange(6), "pre_args": 0, "call_args": None},
+                # and the mirror image
+                {"op": "overwrite", "fs": b, "pick": rng.randrange(3), "how": other, "v": v + 700,
+                 "after_copy": "copy" if first == "orig" else "orig"},
+                {"op": "collect", "fs": a, "slice": False, **sel_all, "call_args": None},
+                {"op": "find", "fs": 0, **sel_all},
+                {"op": "delete", "fs": a, "dry": False, **sel_all},
+                {"op": "collect", "fs": b, "slice": False, **sel_all, "call_args": None}]
+        cases.append({"id": k0 + len(cases), "filesets": filesets, "ops": ops, "directed": "copy-then-overwrite"})
+    # ---- (b): kind, compression suffix of the fileset read from, of the fileset converted into, the conversion
+    variants = [("pkl", "", ".gz", "true"), ("pkl", ".gz", "", 5), ("json", ".bz2", ".xz", "true"), ("csv", ".gz", "", "true"),
+                ("csv", "", ".bz2", 0), ("json", ".xz", ".gz", -1), ("pkl", ".zip", ".gz", 0), ("csv", ".xz", ".xz", "true")]
+    for kind, comp, comp2, conv in variants:
+        sat = rng.random() < 0.5
+        k2 = kind if conv == "true" or kind == "csv" else rng.choice(["pkl", "json"])
+        f0 = dict(base, name="fs0", hkind=kind, sat=sat, post=rng.choice([0, 1, 100]), plabel=True,
+                  cov=rng.choice([None, 3600]),
+                  path="d0/{year}/{month}/" + ("{sat}_" if sat else "") + "{year}{month}{day}T{hour}{minute}" + SUFFIX[kind][0] + comp)
+        f1 = dict(base, name="fs1", hkind=k2, sat=sat, post=rng.choice([0, -2]), plabel=True,
+                  path="d1/" + ("{sat}/" if sat else "") + "{year}{doy}_{hour}{minute}" + SUFFIX[k2][0] + comp2)
+        if kind in ("pkl", "json"):
+            f0["rargs"] = f0["wargs"] = rng.choice([0, 3])
+        day = rng.choice([dt.datetime(2018, 1, 1), dt.datetime(2020, 2, 29), dt.datetime(2019, 12, 31)])
+        v = rng.randrange(1, 50) * 10
+        times = [day + dt.timedelta(hours=3), day + dt.timedelta(hours=15, minutes=30), day + dt.timedelta(days=1, hours=1)]
+        ops = [{"op": "write", "fs": 0, "s": us(t_), "e": us(t_), "v": v + j + 1, "slice": False,
+                "fill": {"sat": SATS[j % 3]} if sat else None, "call_args": None} for j, t_ in enumerate(times)]
+        sel = dict(sel_all, start=us(day), end=us(day + dt.timedelta(days=1)))
+        ops += [{"op": "find", "fs": 0, **sel_all},
+                {"op": "read", "fs": 0, "pick": 0, "pre_args": 0, "call_args": None},        # read(FileInfo)
+                {"op": "read", "fs": 0, "pick": 2, "pre_args": 0, "call_args": None},
+                {"op": "read", "fs": 0, "pick": 1, "pre_args": 0, "call_args": None},        # read("path")
+                {"op": "get", "fs": 0, "pick": 1, "pre_args": 0},                            # fileset[t]
+                {"op": "get", "fs": 0, "pick": 2, "pre_args": 0},
+                {"op": "collect", "fs": 0, "slice": True, **sel, "call_args": None},         # fileset[s:e]
+                {"op": "collect", "fs": 0, "slice": False, **sel_all, "call_args": None},    # collect
+                {"op": "collect", "fs": 0, "slice": False, **sel_all, "call_args": None, "icollect": True},
+                {"op": "collect", "fs": 0, "slice": False, **sel_all, "call_args": None, "use_files": 5},
+                {"op": "move", "fs": 0, "copy": rng.random() < 0.5, **sel, "target": {"kind": "fs", "fs": 1}, "convert": conv,
+                 "conv_none": False},
+                {"op": "find", "fs": 1, **sel_all},
+                {"op": "collect", "fs": 1, "slice": False, **sel_all, "call_args": None, "icollect": rng.random() < 0.5},
+                {"op": "read", "fs": 1, "pick": 0, "pre_args": 0, "call_args": None},
+                {"op": "get", "fs": 1, "pick": 1, "pre_args": 0}]
+        cases.append({"id": k0 + len(cases), "filesets": [f0, f1], "ops": ops, "directed": "post-reader-sees-file-info"})
+    return cases
+
+
+def decorate2(rng, cases):
+    """Drawn after everything else (the histories of a seed stay what they were up to here): post_readers that look at the
+    FileInfo they are handed, the generator form of collect, and -- APPENDED to histories that copy files -- overwrites
+    of an existing file of the source and of the target in place, each followed by a read of the other side."""
+    sel_all = {"start": None, "end": None, "white": None, "black": None}
+    for c in cases:
+        for f in c["filesets"]:
+            if f["post"] is not None:
+                if rng.random() < 0.5:
+                    f["plabel"] = True
+            elif rng.random() < 0.15:
+                f["post"], f["plabel"] = rng.choice([0, 1]), True
+        nfs, paths_before, tail = len(c["filesets"]), 0, []
+        for op in c["ops"]:
+            if op["op"] == "collect" and not op.get("slice") and rng.random() < 0.3:
+                op["icollect"] = True
+            if op["op"] == "move" and op["target"]["kind"] == "path":
+                paths_before += 1
+            if op["op"] == "move" and op["copy"] and not tail and rng.random() < 0.8:
+                ti = op["target"]["fs"] if op["target"]["kind"] == "fs" else nfs + paths_before - 1
+                a, b = (op["fs"], ti) if rng.random() < 0.5 else (ti, op["fs"])
+                v = rng.randrange(600, 700)
+                tail = [{"op": "overwrite", "fs": a, "pick": rng.randrange(64), "how": rng.choice(["setitem", "write"]), "v": v,
+                         "after_copy": "random"},
+                        {"op": "collect", "fs": b, "slice": False, **sel_all, "call_args": None},
+                        {"op": "overwrite", "fs": b, "pick": rng.randrange(64), "how": rng.choice(["setitem", "write"]),
+                         "v": v + 1, "after_copy": "random"},
+                        {"op": "collect", "fs": a, "slice": False, **sel_all, "call_args": None}]
+        if tail:
+            # the pool of the child has its final size here only if every path-move before succeeded; an index beyond the
+            # pool wraps around (op["fs"] % len(pool)): still an overwrite of an existing file, compared like any other
+            c["ops"] = c["ops"] + tail
+
+
 # ----------------------------------------------------------------------------- Coq terms
 
 import re
@@ -397,9 +538,16 @@ def tokens(path):
 HCODE = {"pkl": 1, "json": 2, "csv": 3, "nc": 4}
 
 
+def post_term(cfg):
+    """post_reader of the model: entry -> payload -> payload (t_label looks at the entry, t_add does not)"""
+    if cfg["post"] is None:
+        return "(fun _ x => x)"
+    return f"({'t_label' if cfg.get('plabel') else 't_add'} {zlit(cfg['post'])})"
+
+
 def fset_term(cfg):
     cov = "None" if cfg["cov"] is None else f"(Some {zlit(cfg['cov'] * 1000000)})"
-    post = "(fun x => x)" if cfg["post"] is None else f"(Z.add {zlit(cfg['post'])})"
+    post = post_term(cfg)
     return (f"(FSet {tokens(cfg['path'])} {cov} {HCODE[cfg['hkind']]} {zlit(cfg['rargs'])} {zlit(cfg['wargs'])} "
             f"{post} {coq_bool(cfg['compress'])} {coq_bool(cfg['decompress'])})")
 
@@ -411,9 +559,16 @@ def kw_term(k):
 def fobj_term(cfg):
     """the FileSet OBJECT of the model: default dictionaries instead of the codes the handler reads from them"""
     cov = "None" if cfg["cov"] is None else f"(Some {zlit(cfg['cov'] * 1000000)})"
-    post = "(fun x => x)" if cfg["post"] is None else f"(Z.add {zlit(cfg['post'])})"
+    post = post_term(cfg)
     return (f"(FObj {tokens(cfg['path'])} {cov} {HCODE[cfg['hkind']]} {kw_term(cfg['rargs'])} {kw_term(cfg['wargs'])} "
             f"{post} {coq_bool(cfg['compress'])} {coq_bool(cfg['decompress'])})")
+
+
+def info_term(op):
+    """the FileInfo handed to read(): FileInfo(path) for a string (no times, no attributes), else get_info(path) --
+    the entry find() reports for that file (computed by the model from the name)"""
+    p = f"(s2l {coq_string(op['path'])})"
+    return f"(bare {p})" if op.get("bare") else f"(t_info {fset_term(op['cfg'])} {p})"
 
 
 def call_term(op):
@@ -422,7 +577,7 @@ def call_term(op):
         return None
     a, n = kw_term(op["call"]) if op["call"] else f"(kw_in [({coq_string('offset')}, 0)])", op["op"]
     if n == "read" and "path" in op:
-        return f"(CRead {a} (s2l {coq_string(op['path'])}))"
+        return f"(CRead {a} {info_term(op)})"
     if n == "collect":
         return f"(CCollect {a} {sel_term(op)})"
     if n == "write" and "path" in op:
@@ -457,8 +612,12 @@ def op_term(op):
     if n == "write":
         e = op["e"] if op["slice"] else op["s"]
         return f"(OWrite {F} {zlit(op['s'])} {zlit(e)} {attrs_term(op.get('fill'))} {zlit(op['v'])})"
+    if n == "overwrite":
+        if op.get("how") == "setitem":
+            return f"(OWrite {F} {zlit(op['s'])} {zlit(op['e'])} {attrs_term(op.get('fill'))} {zlit(op['v'])})"
+        return f"(OWriteAt {F} (s2l {coq_string(op['path'])}) {zlit(op['v'])})"
     if n == "read":
-        return f"(ORead {F} (s2l {coq_string(op['path'])}))"
+        return f"(ORead {F} {info_term(op)})"
     if n == "get":
         return f"(OGet {F} {zlit(op['t'])})"
     if n == "collect":
@@ -538,6 +697,19 @@ def model_err(e):
     return {"ENoFiles": "ENoFiles", "ENoFile": "ENoFile", "ESame": "ESame", "EPeriod": "EPeriod"}.get(e, "Other")
 
 
+def label_hint(op, got, want):
+    """for a fileset whose post_reader labels the payload with the FileInfo it is handed: say what a wrong label means"""
+    try:
+        if op["cfg"].get("plabel") and got != want and (int(got) - int(want)) % 1000 == 0:
+            return (" -- this fileset's post_reader adds 1000 * checksum(file_info.path, .times, .attr) to the payload: the two "
+                    f"numbers differ by {int(got) - int(want)}, a multiple of 1000 (same payload and offset, another checksum): "
+                    "post_reader was NOT handed the FileInfo of the file that was read (path relative to the tree, times and "
+                    "attributes as find() reports them; e.g. that of the temporary decompressed file instead)")
+    except Exception:  # noqa
+        pass
+    return ""
+
+
 def describe(op):
     keep = {k: v for k, v in op.items() if k not in ("cfg", "target_cfg")}
     return f"{keep} on fileset {op['cfg']['path']}" + (f" -> {op['target_cfg']['path']}" if "target_cfg" in op else "")
@@ -552,7 +724,9 @@ def check_cases(ctx, cases, results):
                      f"{(r or {}).get('tb', '')[-400:]}", case=c, signature="harness-crash")
             continue
         before = {}
+        prev_links = []
         for k, rec in enumerate(r["records"]):
+            rec["prev_links"], prev_links = prev_links, rec.get("links") or []
             if rec["out"]["status"] != "skipped":
                 op = rec["op"]
                 ct = call_term(op)
@@ -580,10 +754,22 @@ def check_cases(ctx, cases, results):
     calls = [0]
     wstats = {}
     fstats = {}
+    ostats = {}
     for (c, k, rec, before), v in zip(index, vals):
         ctx.cov["evaluations"] += 1
         op, out, after = rec["op"], rec["out"], rec["after"]
         kinds[op["op"]] = kinds.get(op["op"], 0) + 1
+        # ---- an additional law (the overwrite histories catch shared files on their own): no two paths of the tree are one
+        # and the same file.  move(copy=True) promises an independent copy; a copy that is a hard link keeps its content
+        # only until either name is written again
+        lk = rec.get("links") or []
+        if lk and lk != rec.get("prev_links"):
+            ctx.fail("failing-input", f"after {op['op']} (copy={op.get('copy')}) the paths {lk} of the tree are one and the same file "
+                     f"(same inode, st_nlink > 1): a copy must be an independent file -- it keeps its content when the "
+                     f"original is written again, and a write to the copy touches no unselected file; history {c['id']} step "
+                     f"{k}: {describe(op)}", case=c, impl=lk, model=[], signature="paths-share-inode")
+        if op["op"] == "overwrite":
+            ostats[op.get("after_copy", "other")] = ostats.get(op.get("after_copy", "other"), 0) + 1
         if v is None:
             ctx.fail("correspondence", f"Coq evaluation of the model failed on {describe(op)}", case=c, signature="coq-eval")
             continue
@@ -668,7 +854,8 @@ def check_cases(ctx, cases, results):
         val = out.get("value")
         if name in ("read", "get") and mobs != "TUnspecified":
             if mobs != ("TData", val):
-                ctx.fail(kind, f"{name} returned payload {val}, the property prescribes {mobs}; {where}", case=c, impl=out,
+                ctx.fail(kind, f"{name} returned payload {val}, the property prescribes {mobs}"
+                         f"{label_hint(op, val, mobs[1] if isinstance(mobs, tuple) else None)}; {where}", case=c, impl=out,
                          model=str(mobs), signature=f"{name}-value")
         elif name == "collect":
             want = sorted([p, x] for p, x in mobs[1]) if isinstance(mobs, tuple) else []
@@ -676,7 +863,9 @@ def check_cases(ctx, cases, results):
             if got and got[0][0] is None:
                 want, got = sorted(x for _, x in want), sorted(x for _, x in got)
             if want != got:
-                ctx.fail(kind, f"collect returned {got}, the property prescribes {want}; {where}", case=c, impl=out,
+                hint = next((label_hint(op, g if not isinstance(g, list) else g[1], w if not isinstance(w, list) else w[1])
+                             for g, w in zip(got, want) if g != w), "") if len(got) == len(want) else ""
+                ctx.fail(kind, f"collect returned {got}, the property prescribes {want}{hint}; {where}", case=c, impl=out,
                          model=str(mobs), signature="collect-value")
         elif name == "find":
             want = sorted([p, s, e, sorted([a, b] for a, b in at)] for p, s, e, at in (mobs[1] if isinstance(mobs, tuple) else []))
@@ -695,6 +884,7 @@ def check_cases(ctx, cases, results):
     kinds["calls_with_arguments_of_their_own"] = calls[0]
     kinds["written_is_found_law"] = wstats
     kinds["moves_with_a_conversion_that_may_fail"] = fstats
+    kinds["overwrites_of_an_existing_file_in_place"] = ostats
     return len(nontrivial), kinds
 
 
@@ -801,6 +991,8 @@ def run(ctx):
     ndir = directed_cases(ctx.rng, len(cases))
     ndir += directed_cases2(ctx.rng, len(cases) + len(ndir))
     decorate(ctx.rng, cases)        # after every generator draw: the random histories of a seed stay what they were
+    ndir += directed_cases3(ctx.rng, len(cases) + len(ndir))
+    decorate2(ctx.rng, cases)       # after the draws of every earlier generator, for the same reason
     cases += ndir
     ctx.log(f"{len(cases)} histories ({len(ndir)} directed), {sum(len(c['ops']) for c in cases)} operations")
     results = run_children(ctx, cases, f"h{os.getpid()}", chunk=6 if not ctx.thorough else 16, jobs=12)
@@ -812,7 +1004,7 @@ def run(ctx):
                        "non-trivial = the operation succeeded and changed the tree, or returned at least one payload that "
                        "was compared; distinct by (operation, tree before)")
     ctx.cov["input_distribution"] = {"histories": len(cases), "netcdf_histories_in_child_process": nnc,
-                                     "directed_histories": {d_: sum(1 for c in ndir if c.get("directed") == d_) for d_ in ("year-end", "removed-then-asked", "single-file", "failing-move", "bound-method-handler")},
+                                     "directed_histories": {d_: sum(1 for c in ndir if c.get("directed") == d_) for d_ in ("year-end", "removed-then-asked", "single-file", "failing-move", "bound-method-handler", "copy-then-overwrite", "post-reader-sees-file-info")},
                                      "operations_by_kind": kinds,
                                      "handlers": {k: sum(1 for c in cases for f in c["filesets"] if f["hkind"] == k)
                                                   for k in ("pkl", "json", "csv", "nc")},
@@ -839,6 +1031,13 @@ def run(ctx):
         "raises; NOT determined and not compared: which of the convertible files were moved before move() raised (the "
         "model takes the set of files that arrived from the observed tree), and the class of the exception",
         "user handlers built from bound methods (three signatures) are not distinguished by the model: same expected payloads",
+        "post_reader law: compared for post_readers of the form payload + k + 1000 * checksum(path relative to the tree, times in "
+        "microseconds, attributes) (PostLabel / t_label) and payload + k (PostAdd / t_add); read(\"path\") hands post_reader "
+        "FileInfo(path) with times None, modelled as the entry (path, 0, 0, no attributes); fileset[t] is compared when a file "
+        "with exactly the generated name exists (the entry its name parses to), otherwise the choice of the file is C16's",
+        "copy_is_independent: overwrites after a copy go through FileSet.__setitem__ / write with the toy writers (open(path, 'w'|'wb')), "
+        "pandas to_csv and typhon's compress wrapper (open(target, 'wb')): all write in place; a writer that replaces the file by "
+        "rename would hide a shared inode from the overwrite histories (not from the paths-share-inode law)",
     ]
     return ctx.finish(trusted_base=TRUSTED)
 
